@@ -18,6 +18,19 @@
 //! C line: nnodes; (parent, none)*; ntable; table entries; ops (length-prefixed).   R line: dirty flags; then per op
 //! -1, [events..., -2 for a layout op], dirty flags.  Events are one integer each: Query 4*(hit + 2*(node + 1024*input)),
 //! Return 4*node+1, Hidden 4*node+2, SetLayout 4*node+3.
+//!
+//! REAL-CACHE mode (`vh engev cases <seed> <n> [start] real`, notes/REALHIST.md): the same histories WITHOUT the exact-key hook.  Input ids
+//! are still numbered by the Debug string of the complete input (so inputs the real key conflates stay distinct); the case additionally
+//! carries, per input id, the key projection the real `Cache::get` sees (known_dimensions / available_space, C02's KEY encoding:
+//! kwf kwb khf khb awk awb ahk ahb) -- the MODEL decides hit/miss with `Cache.compat` on them.  Because the lossy test also reads the
+//! CACHED SIZE, an output is named by (record id, width bits, height bits), emitted as one integer id*2^64 + w*2^32 + h:
+//!   miss               (hash-consed record id >= 2, size)        display:none miss   0 = LayoutOutput::HIDDEN
+//!   PerformLayout hit  (record id of the latest PerformLayout miss of that node -- one final entry, latest wins --, size)
+//!   ComputeSize hit    (0, size) = LayoutOutput::from_outer_size(cached size)
+//! The trace has no output payload, so the size is PROBED on the harness side: the pass is re-run on a clone of the tree taken before
+//! the pass with the hook's query limit set so that it stops at the first `compute_cached_layout` entered after the Return in
+//! question, and the public `CacheTree::cache_get(node, the frame's own key)` of the clone is read (a miss has just stored under that
+//! key, a hit has just been answered under it).  A probe that finds nothing is an `ANOM`.
 use crate::hist::*;
 use crate::rng::Rng;
 use crate::treegen::*;
@@ -79,20 +92,21 @@ impl Trie {
             _ => false,
         }
     }
-    fn emit(&self, v: &mut Vec<i64>) {
+    /// `code`: the integer the model sees for an output handle
+    fn emit(&self, v: &mut Vec<i128>, code: &dyn Fn(i64) -> i128) {
         match self {
             Trie::Empty => v.extend([0, 1]), // never reached by a completed evaluation: the model's error output
-            Trie::Ret(o) => v.extend([0, *o]),
+            Trie::Ret(o) => v.extend([0, code(*o)]),
             Trie::Query(c, i, brs) => {
-                v.extend([1, *c, *i, brs.len() as i64]);
+                v.extend([1, *c as i128, *i as i128, brs.len() as i128]);
                 for (o, t) in brs {
-                    v.push(*o);
-                    t.emit(v);
+                    v.push(code(*o));
+                    t.emit(v, code);
                 }
             }
             Trie::Set(c, n) => {
-                v.extend([2, *c]);
-                n.emit(v);
+                v.extend([2, *c as i128]);
+                n.emit(v, code);
             }
         }
     }
@@ -101,6 +115,10 @@ impl Trie {
 struct Frame {
     node: i64,
     input: i64,
+    #[cfg(taffy_verif)]
+    nid: NodeId,
+    #[cfg(taffy_verif)]
+    linput: taffy::LayoutInput,
     hit: bool,
     opaque: bool, // display:none node or hidden-mode input: the body is compute_hidden_layout, not an algorithm
     key: Key,
@@ -118,14 +136,57 @@ pub struct Stats {
     pub outputs: u64,
 }
 
+/// tree before the pass, its root and the available space of the pass (real mode: probes)
+#[cfg(taffy_verif)]
+pub struct Pre {
+    t: TaffyTree<Ctx>,
+    root: NodeId,
+    avail: Size<AvailableSpace>,
+    /// the clone stopped after `nq` queries (kept while consecutive probes ask for the same point)
+    at: Option<(u64, TaffyTree<Ctx>)>,
+    total: u64,
+}
+
+#[cfg(taffy_verif)]
+impl Pre {
+    /// what `cache_get(node, key of input)` answers right before the (nq+1)-th compute_cached_layout call of the pass (after the
+    /// pass when there is none)
+    fn probe(&mut self, nq: u64, node: NodeId, input: &taffy::LayoutInput) -> Option<taffy::LayoutOutput> {
+        use taffy::CacheTree;
+        if self.at.as_ref().map(|a| a.0) != Some(nq) {
+            let mut t = self.t.clone();
+            taffy::verif_hooks::reset_queries();
+            taffy::verif_hooks::set_query_limit(if nq < self.total { nq } else { u64::MAX });
+            let (root, avail) = (self.root, self.avail);
+            let r = std::panic::catch_unwind(std::panic::AssertUnwindSafe(|| compute(&mut t, root, avail)));
+            taffy::verif_hooks::set_query_limit(u64::MAX);
+            if r.is_err() != (nq < self.total) {
+                return None;
+            }
+            self.at = Some((nq, t));
+        }
+        self.at.as_ref().unwrap().1.cache_get(node, input.known_dimensions, input.available_space, input.run_mode)
+    }
+}
+
 #[derive(Default)]
 struct Rec {
+    real: bool,
+    /// real mode: key projection of every input id (C02's KEY encoding)
+    keys: Vec<[i64; 8]>,
+    /// real mode: interned outputs (record id, width bits, height bits); an output handle is an index here
+    outs: Vec<(i64, u32, u32)>,
+    out_index: HashMap<(i64, u32, u32), i64>,
+    /// real mode: record id of the latest PerformLayout miss of a node
+    last_final: HashMap<i64, i64>,
     inputs: HashMap<String, i64>,
     records: HashMap<(Key, Vec<Act>), i64>,
     last_out: HashMap<(i64, i64), i64>,
     table: Vec<(Key, Trie)>,
     index: HashMap<Key, usize>,
     anomalies: Vec<String>,
+    /// real mode: reasons why this history cannot be recorded (it is skipped)
+    skips: Vec<String>,
 }
 
 #[cfg(taffy_verif)]
@@ -133,6 +194,19 @@ impl Rec {
     fn input_id(&mut self, input: &taffy::LayoutInput) -> i64 {
         let n = self.inputs.len() as i64;
         let k = *self.inputs.entry(format!("{:?}", input)).or_insert(n);
+        if k == n {
+            let kd = |v: Option<f32>| match v {
+                Some(x) => [1, x.to_bits() as i64],
+                None => [0, 0],
+            };
+            let av = |a: AvailableSpace| match a {
+                AvailableSpace::MinContent => [0, 0],
+                AvailableSpace::MaxContent => [1, 0],
+                AvailableSpace::Definite(x) => [2, x.to_bits() as i64],
+            };
+            let (a, b, c, d) = (kd(input.known_dimensions.width), kd(input.known_dimensions.height), av(input.available_space.width), av(input.available_space.height));
+            self.keys.push([a[0], a[1], b[0], b[1], c[0], c[1], d[0], d[1]]);
+        }
         let mode = match input.run_mode {
             taffy::RunMode::PerformLayout => 0,
             taffy::RunMode::ComputeSize => 1,
@@ -142,7 +216,93 @@ impl Rec {
     }
 
     /// one traced pass: returns (root input, encoded events)
-    fn pass(&mut self, w: &World, versions: &[i64], trace: &[taffy::verif_hooks::Event], st: &mut Stats) -> (i64, Vec<i64>) {
+    fn out_handle(&mut self, o: (i64, u32, u32)) -> i64 {
+        if !self.real {
+            return o.0;
+        }
+        let n = self.outs.len() as i64;
+        let k = *self.out_index.entry(o).or_insert(n);
+        if k == n {
+            self.outs.push(o);
+        }
+        k
+    }
+
+    /// the integer the model sees for an output handle
+    fn out_code(&self, h: i64) -> i128 {
+        if !self.real {
+            return h as i128;
+        }
+        let (id, w, hh) = self.outs[h as usize];
+        ((id as i128) << 64) | ((w as i128) << 32) | (hh as i128)
+    }
+
+    /// real mode: name the output of a completed frame (see the module documentation)
+    fn real_out(&mut self, fr: &Frame, n: i64, nq: u64, pre: &mut Pre) -> i64 {
+        let perform = fr.linput.run_mode == taffy::RunMode::PerformLayout;
+        let (pw, ph) = match pre.probe(nq, fr.nid, &fr.linput) {
+            Some(o) => (o.size.width.to_bits(), o.size.height.to_bits()),
+            None => {
+                // a key that does not match itself (NaN known dimension; NaN / infinite definite available space on an axis without
+                // known dimension) cannot be probed -- Cache::get misses its own entry: the history is skipped, not reported
+                let i = &fr.linput;
+                let bad = |k: Option<f32>, a: AvailableSpace| match (k, a) {
+                    (Some(x), _) => x.is_nan(),
+                    (None, AvailableSpace::Definite(x)) => !x.is_finite(),
+                    _ => false,
+                };
+                if bad(i.known_dimensions.width, i.available_space.width) || bad(i.known_dimensions.height, i.available_space.height) {
+                    self.skips.push(format!("probe impossible: node {n} input {} has a key that does not match itself", fr.input));
+                } else {
+                    self.anomalies.push(format!("probe: node {n} input {} has no cache entry after its {}", fr.input, if fr.hit { "hit" } else { "miss" }));
+                }
+                (0, 0)
+            }
+        };
+        if fr.hit {
+            let id = if perform {
+                match self.last_final.get(&fr.node) {
+                    Some(o) => *o,
+                    None => {
+                        self.anomalies.push(format!("PerformLayout hit at node {n} input {} without an earlier PerformLayout miss", fr.input));
+                        1
+                    }
+                }
+            } else {
+                0
+            };
+            return self.out_handle((id, pw, ph));
+        }
+        let id = if fr.opaque {
+            if (pw, ph) != (0, 0) {
+                self.anomalies.push(format!("probe: display:none node {n} stored a non-zero size"));
+            }
+            0
+        } else {
+            let next = self.records.len() as i64 + 2;
+            *self.records.entry((fr.key.clone(), fr.acts.clone())).or_insert(next)
+        };
+        let out = self.out_handle((id, pw, ph));
+        if !fr.opaque {
+            let slot = match self.index.get(&fr.key) {
+                Some(k) => *k,
+                None => {
+                    self.table.push((fr.key.clone(), Trie::Empty));
+                    self.index.insert(fr.key.clone(), self.table.len() - 1);
+                    self.table.len() - 1
+                }
+            };
+            if !self.table[slot].1.insert(&fr.acts, out) {
+                self.anomalies.push(format!("NONDET: node {n} key {:?}: same key and outputs so far, different action or output size", fr.key));
+            }
+        }
+        if perform {
+            self.last_final.insert(fr.node, id);
+        }
+        out
+    }
+
+    fn pass(&mut self, w: &World, versions: &[i64], trace: &[taffy::verif_hooks::Event], st: &mut Stats, mut pre: Option<Pre>) -> (i64, Vec<i64>) {
         use taffy::verif_hooks::Event;
         let idx: HashMap<NodeId, i64> = w.pool.iter().enumerate().filter_map(|(i, n)| n.map(|n| (n, i as i64))).collect();
         let child_index = |parent: i64, child: i64| -> Option<i64> {
@@ -152,11 +312,16 @@ impl Rec {
         let mut evs: Vec<i64> = vec![];
         let mut stack: Vec<Frame> = vec![];
         let mut root_input: Option<i64> = None;
+        let mut nq: u64 = 0;
+        if let Some(p) = pre.as_mut() {
+            p.total = trace.iter().filter(|e| matches!(e, Event::Query { .. })).count() as u64;
+        }
         for ev in trace {
             match ev {
                 Event::Query { node, input, hit } => {
                     let n = idx[node];
                     let inp = self.input_id(input);
+                    nq += 1;
                     if stack.is_empty() && root_input.is_none() {
                         root_input = Some(inp);
                     }
@@ -169,7 +334,7 @@ impl Rec {
                     let style = w.t.style(*node).unwrap();
                     let kids: Vec<(i64, i64)> = w.t.children(*node).unwrap().iter().map(|c| (idx[c], versions[idx[c] as usize])).collect();
                     let opaque = style.display == Display::None || input.run_mode == taffy::RunMode::PerformHiddenLayout;
-                    stack.push(Frame { node: n, input: inp, hit: *hit, opaque, key: (n, versions[n as usize], kids, inp), acts: vec![] });
+                    stack.push(Frame { node: n, input: inp, nid: *node, linput: *input, hit: *hit, opaque, key: (n, versions[n as usize], kids, inp), acts: vec![] });
                 }
                 Event::Return { node } => {
                     let n = idx[node];
@@ -184,7 +349,9 @@ impl Rec {
                     if fr.node != n {
                         self.anomalies.push(format!("trace nesting broken at node {n}"));
                     }
-                    let out = if fr.hit {
+                    let out = if self.real {
+                        self.real_out(&fr, n, nq, pre.as_mut().unwrap())
+                    } else if fr.hit {
                         match self.last_out.get(&(fr.node, fr.input)) {
                             Some(o) => *o,
                             None => {
@@ -260,8 +427,8 @@ impl Rec {
 }
 
 #[cfg(taffy_verif)]
-pub fn run_history(seed: u64, idx: u64, st: &mut Stats) -> (Vec<i64>, Vec<i64>, Vec<String>) {
-    taffy::verif_hooks::set_exact_key(true);
+pub fn run_history(seed: u64, idx: u64, st: &mut Stats, real: bool) -> (Vec<i128>, Vec<i64>, Vec<String>) {
+    taffy::verif_hooks::set_exact_key(!real);
     let mut rng = Rng::new(seed.wrapping_mul(0x9E37_79B9).wrapping_add(idx) ^ 0xE17E);
     let mut cfg = GenCfg::default();
     cfg.max_nodes = 9;
@@ -279,12 +446,18 @@ pub fn run_history(seed: u64, idx: u64, st: &mut Stats) -> (Vec<i64>, Vec<i64>, 
     let mut ops: Vec<i64> = vec![];
     let mut r: Vec<i64> = flags(&w);
     let mut versions: Vec<i64> = vec![0; w.pool.len()];
-    let mut rec = Rec::default();
+    let mut rec = Rec { real, ..Rec::default() };
     let nops = 6 + rng.below(24);
     for step in 0..nops {
         let op = if step == 0 { Op::Layout(0, avail(&mut rng, &cfg)) } else { gen_op(&mut rng, &cfg, &w) };
         let before_pool = w.pool.len();
-        if matches!(op, Op::Layout(..)) {
+        let mut pre: Option<Pre> = None;
+        if let Op::Layout(i, a) = &op {
+            if real {
+                if let Some(Some(root)) = w.pool.get(*i) {
+                    pre = Some(Pre { t: w.t.clone(), root: *root, avail: *a, at: None, total: 0 });
+                }
+            }
             taffy::verif_hooks::start_trace();
         }
         let applied = w.apply(&op);
@@ -325,7 +498,7 @@ pub fn run_history(seed: u64, idx: u64, st: &mut Stats) -> (Vec<i64>, Vec<i64>, 
             Op::MarkDirty(i) => vec![9, *i as i64],
             Op::Rounding(_) => vec![11],
             Op::Layout(i, _) => {
-                let (root_input, evs) = rec.pass(&w, &versions, &trace, st);
+                let (root_input, evs) = rec.pass(&w, &versions, &trace, st, pre);
                 logged = evs;
                 vec![10, *i as i64, root_input]
             }
@@ -336,19 +509,28 @@ pub fn run_history(seed: u64, idx: u64, st: &mut Stats) -> (Vec<i64>, Vec<i64>, 
         r.extend(flags(&w));
     }
     taffy::verif_hooks::set_exact_key(false);
-    let mut c = head;
-    c.push(rec.table.len() as i64);
-    for (k, t) in &rec.table {
-        c.extend([k.0, k.1, k.2.len() as i64]);
-        for (a, b) in &k.2 {
-            c.extend([*a, *b]);
+    let mut c: Vec<i128> = head.iter().map(|x| *x as i128).collect();
+    if real {
+        c.push(rec.keys.len() as i128);
+        for k in &rec.keys {
+            c.extend(k.iter().map(|x| *x as i128));
         }
-        c.push(k.3);
-        t.emit(&mut c);
     }
-    c.extend(ops);
+    c.push(rec.table.len() as i128);
+    for (k, t) in &rec.table {
+        c.extend([k.0 as i128, k.1 as i128, k.2.len() as i128]);
+        for (a, b) in &k.2 {
+            c.extend([*a as i128, *b as i128]);
+        }
+        c.push(k.3 as i128);
+        t.emit(&mut c, &|h| rec.out_code(h));
+    }
+    c.extend(ops.iter().map(|x| *x as i128));
     st.entries += rec.table.len() as u64;
     st.outputs += rec.records.len() as u64;
+    if let Some(why) = rec.skips.first() {
+        return (vec![], vec![], vec![format!("SKIP {why}")]);
+    }
     (c, r, rec.anomalies)
 }
 
@@ -362,10 +544,15 @@ pub fn main(args: &[String]) {
             let seed: u64 = args[1].parse().unwrap();
             let n: u64 = args[2].parse().unwrap();
             let start: u64 = args.get(3).map(|s| s.parse().unwrap()).unwrap_or(0);
+            let real = args.get(4).map(|s| s == "real").unwrap_or(false);
             let mut st = Stats::default();
             let mut nanom = 0;
             for idx in start..start + n {
-                let (c, r, anom) = run_history(seed, idx, &mut st);
+                let (c, r, anom) = run_history(seed, idx, &mut st, real);
+                if let Some(a) = anom.first().filter(|a| a.starts_with("SKIP ")) {
+                    println!("SKIPPED {idx} {a}");
+                    continue;
+                }
                 println!("C {}", c.iter().map(|x| x.to_string()).collect::<Vec<_>>().join(" "));
                 println!("R {}", r.iter().map(|x| x.to_string()).collect::<Vec<_>>().join(" "));
                 for a in anom.iter().take(3) {
